@@ -13,8 +13,6 @@ package deps
 //@   ensures true
 //@ trusted func fmt.Errorf(format string, a []interface{}) (err error)
 //@   ensures !isNil(err) && !typeIs(err, "*res.Error")
-//@ trusted func errors.New(text string) (err error)
-//@   ensures !isNil(err) && !typeIs(err, "*res.Error")
 //@ trusted func debug.Stack() (b []byte)
 //@   ensures true
 //@ # JSON encoding of a Go string: jlen(s) bytes, the k-th being jchar(s, k); at least the two quotes
@@ -151,3 +149,11 @@ package deps
 //@   ensures true
 //@ trusted func (t store.Transformer) RIDToID(rid string, pathParams map[string]string) (id string)
 //@   ensures true
+
+//@ # nats subscriptions: the subscribe calls are recorded by ghost statements at the call sites
+//@ trusted func (c res.Conn) ChanSubscribe(subject string, ch chan *nats.Msg) (sub *nats.Subscription, err error)
+//@   modifies alloc
+//@ trusted func (c res.Conn) ChanQueueSubscribe(subject string, queue string, ch chan *nats.Msg) (sub *nats.Subscription, err error)
+//@   modifies alloc
+//@ trusted func errors.New(text string) (err error)
+//@   ensures !isNil(err) && !typeIs(err, "*res.Error")
